@@ -70,6 +70,12 @@ func factsC14() {
 	emitStr("f_c14_removesignaluser_text", normText("bus/signal.go", "signalHandler", "removeSignalUser"))
 	emitStr("f_c14_updatesignal_text", normText("bus/signal.go", "signalHandler", "UpdateSignal"))
 	emitStr("f_bomb_signalboom_text", normText("examples/space/space_stub_gen.go", "stubBomb", "SignalBoom"))
+	// objects with several properties (PropertyMulti.v): the harness builds its object the way every generated
+	// stub does, and a numeric name is looked up in the declared properties
+	emitBool("f_bomb_object_is_newbasicobject", strings.Contains(c14RawText("examples/space/space_stub_gen.go", "", "BombObject"),
+		`obj := bus.NewBasicObject(&stb, stb.metaObject(), stb.onPropertyChange)`))
+	emitBool("f_setproperty_uid_in_meta_properties", strings.Contains(c14RawText("bus/object.go", "objectImpl", "SetProperty"),
+		`property, ok := o.meta.Properties[idValue.Value()]`))
 	emitN("f_action_registerevent", c14ActionOf("p.RegisterEvent"))
 	emitN("f_action_unregisterevent", c14ActionOf("p.UnregisterEvent"))
 	emitN("f_action_property", c14ActionOf("p.Property"))
